@@ -1,7 +1,7 @@
 ---------------------------------- MODULE Ir ----------------------------------
 \* I stratum: the immutable selector IR as the parser builds it (css_types.py) and the matcher as the
 \* code structures it (css_match.py match_selectors / match_past_relations / match_future_relations /
-\* match_nth), for the grammar of C01/C02.  Compile maps the AST of CssDecl to the IR the way
+\* match_nth), for the grammar of C01/C02 plus :lang(), :dir() and the contains pseudo-classes (stored in the IR as data, evaluated by Lang / HtmlState / TextSem).  Compile maps the AST of CssDecl to the IR the way
 \* parse_selectors does: the LAST compound of a complex selector is the subject, its `relation` is a
 \* one-element list holding the compound to its left (whose rel_type is the combinator between them),
 \* and so on right to left; :has() arguments are chained left to right with ":"-prefixed rel_types under
@@ -17,7 +17,7 @@ IsNull(s) == "null" \in DOMAIN s
 EmptyList == [selectors |-> <<>>, is_not |-> FALSE, is_html |-> FALSE]
 FlagNames == {"root", "empty", "scope"}
 BlankSel == [tag |-> NoTag, ids |-> <<>>, classes |-> <<>>, attributes |-> <<>>, nth |-> <<>>, selectors |-> <<>>,
-             relation |-> EmptyList, rel_type |-> "", flags |-> {}]
+             relation |-> EmptyList, rel_type |-> "", flags |-> {}, lang |-> <<>>, contains |-> <<>>]
 NthRec(a, n, b, t, l, sels) == [a |-> a, n |-> n, b |-> b, of_type |-> t, last |-> l, selectors |-> sels]
 StarStar == [selectors |-> <<[BlankSel EXCEPT !.tag = [name |-> Star, prefix |-> [t |-> "any"]]]>>, is_not |-> FALSE, is_html |-> FALSE]
 
@@ -41,6 +41,9 @@ AddSimple(sel, s) ==
                                                                is_not |-> FALSE, is_html |-> FALSE])]
       [] s.k \in FlagNames -> [sel EXCEPT !.flags = @ \cup {s.k}]
       [] s.k = "amp"   -> [sel EXCEPT !.flags = @ \cup {"scope"}]
+      [] s.k = "lang"  -> [sel EXCEPT !.lang = Append(@, s.ranges)]                          \* SelectorLang(languages)
+      [] s.k = "contains" -> [sel EXCEPT !.contains = Append(@, [text |-> s.vals, own |-> s.own])]   \* SelectorContains(text, own)
+      [] s.k = "dir"   -> [sel EXCEPT !.flags = @ \cup {IF s.d = "ltr" THEN "dir_ltr" ELSE "dir_rtl"}]
       [] s.k = "first-child" -> [sel EXCEPT !.nth = Append(@, NthRec(1, FALSE, 0, FALSE, FALSE, EmptyList))]
       [] s.k = "last-child"  -> [sel EXCEPT !.nth = Append(@, NthRec(1, FALSE, 0, FALSE, TRUE, EmptyList))]
       [] s.k = "first-of-type" -> [sel EXCEPT !.nth = Append(@, NthRec(1, FALSE, 0, TRUE, FALSE, EmptyList))]
@@ -121,6 +124,10 @@ AlgoSel(d, env, s, i) ==          \* the checks of match_selectors, in the order
     /\ ("scope" \in s.flags => i = env.scope)
     /\ \A n \in 1..Len(s.nth) : AlgoNth(d, env, s.nth[n], i)
     /\ ("empty" \in s.flags => EmptyHolds(d, i))
+    /\ ("dir_ltr" \in s.flags => StateHolds(d, [k |-> "dir", d |-> "ltr"], i))
+    /\ ("dir_rtl" \in s.flags => StateHolds(d, [k |-> "dir", d |-> "rtl"], i))
+    /\ \A n \in 1..Len(s.lang) : LangHolds(d, [k |-> "lang", ranges |-> s.lang[n]], i)
+    /\ \A n \in 1..Len(s.contains) : ContainsHolds(d, [k |-> "contains", vals |-> s.contains[n].text, own |-> s.contains[n].own], i)
     /\ \A n \in 1..Len(s.ids) : IdHolds(d, [v |-> s.ids[n]], i)
     /\ \A n \in 1..Len(s.classes) : ClassHolds(d, [v |-> s.classes[n]], i)
     /\ \A n \in 1..Len(s.attributes) : AttrHolds(d, env, s.attributes[n], i)
